@@ -1880,10 +1880,17 @@ class SolveUnc(_BaseODE):
                 a_rb = force[rb]
             if "d" in incrb or "v" in incrb:
                 pvnz = freqw != 0
+                # note: `rb` can be an index array (rb modes not
+                # contiguous), so do not combine it with `pvnz` in
+                # one subscript
                 if "v" in incrb:
-                    v[rb, pvnz] = (-1j / freqw[pvnz]) * a_rb[:, pvnz]
+                    v_rb = np.zeros(a_rb.shape, v.dtype)
+                    v_rb[:, pvnz] = (-1j / freqw[pvnz]) * a_rb[:, pvnz]
+                    v[rb] = v_rb
                 if "d" in incrb:
-                    d[rb, pvnz] = (-1.0 / freqw2[pvnz]) * a_rb[:, pvnz]
+                    d_rb = np.zeros(a_rb.shape, d.dtype)
+                    d_rb[:, pvnz] = (-1.0 / freqw2[pvnz]) * a_rb[:, pvnz]
+                    d[rb] = d_rb
             if "a" in incrb:
                 a[rb] = a_rb
 
